@@ -741,7 +741,7 @@ class Parser(ExprParser):
                     elif self.token.typ in ["RBRACKET", "RCURLY"]:
                         brackets -= 1
                     elif self.token.typ == "EOF":
-                        raise RuntimeError(
+                        self.error_msg(
                             "Unbalanced parens in attribute {}".format(name)
                         )
                     if parens == 0:
